@@ -27,6 +27,7 @@
 #include "oomd/Stats.h"
 #include "oomd/StatsClient.h"
 #include "oomd/include/Assert.h"
+#include "oomd/include/Verif.h"
 #include "oomd/util/ScopeGuard.h"
 #include "oomd/util/Util.h"
 
@@ -41,6 +42,7 @@ Stats::Stats(const std::string& stats_socket_path)
 
 Stats::~Stats() {
   std::array<char, 64> err_buf = {};
+  OOMD_VERIF_POINT("stats.dtor.begin", 0, 0);
   statsThreadRunning_ = false;
   auto client = StatsClient(stats_socket_path_);
   client.closeSocket();
@@ -66,6 +68,7 @@ Stats::~Stats() {
     OLOG << "Closing stats error: closing stats socket: "
          << ::strerror_r(errno, err_buf.data(), err_buf.size());
   }
+  OOMD_VERIF_POINT("stats.dtor.end", 0, 0);
 }
 
 Stats& Stats::get(const std::string& stats_socket_path) {
@@ -151,6 +154,7 @@ void Stats::runSocket() {
     ::setsockopt(sockfd, SOL_SOCKET, SO_SNDTIMEO, time_ptr, sizeof io_timeout);
     std::unique_lock<std::mutex> lock(thread_mutex_);
     ++thread_count_;
+    OOMD_VERIF_POINT("stats.handler.start", sockfd, thread_count_.load());
     std::thread msg_thread_ =
         std::thread([this, sockfd] { this->processMsg(sockfd); });
     msg_thread_.detach();
@@ -218,6 +222,7 @@ void Stats::processMsg(int sockfd) {
   }
   std::unique_lock<std::mutex> lock(thread_mutex_);
   thread_count_--;
+  OOMD_VERIF_POINT("stats.handler.end", sockfd, thread_count_.load());
   lock.unlock();
   thread_exited_.notify_one();
 }
